@@ -259,7 +259,13 @@ namespace jsoncons {
                             if ((item.storage_kind() == json_storage_kind::array || item.storage_kind() == json_storage_kind::object)
                                 && !item.empty()) // non-empty object or array
                             {
-                                data_.push_back(std::move(item));
+                                JSONCONS_TRY
+                                {
+                                    data_.push_back(std::move(item));
+                                }
+                                JSONCONS_CATCH(...) // no memory to flatten: the value is destroyed recursively with its parent
+                                {
+                                }
                             }
                         }
                         current.clear();                           
@@ -272,7 +278,13 @@ namespace jsoncons {
                             if ((kv.value().storage_kind() == json_storage_kind::array || kv.value().storage_kind() == json_storage_kind::object)
                                 && !kv.value().empty()) // non-empty object or array
                             {
-                                data_.push_back(std::move(kv.value()));
+                                JSONCONS_TRY
+                                {
+                                    data_.push_back(std::move(kv.value()));
+                                }
+                                JSONCONS_CATCH(...) // no memory to flatten: the value is destroyed recursively with its parent
+                                {
+                                }
                             }
                         }
                         current.clear();                           
